@@ -73,6 +73,8 @@ def dense_payload(node):
         if cplx:
             a[np.diag_indices(n)] = a[np.diag_indices(n)].real
         return a.astype(DT[dt])
+    if g == "flip":  # the exchange matrix (a matrix-free operator can apply it as a *view* of its operand: X[::-1])
+        return np.eye(n)[::-1].copy().astype(DT[dt])
     if g == "intdom":  # small integers, strictly diagonally dominant (invertible, exactly representable in an integer dtype)
         a = ints(rng, (n, n), dt, -2, 2).astype(np.complex128 if cplx else np.float64)
         a[np.arange(n), np.arange(n)] = 0
